@@ -54,3 +54,12 @@ package topics
 //@   requires topic_lock_free_on_entry: !held(s.topic.mu)
 //@   lockcheck
 //@   modifies heap
+
+// Handle always closes its subscription before it returns (an abandoned
+// subscription would block the next Publish for ever).
+//@ func (t *Topic) Handle
+//@   modifies heap, ghost_draining, ghost_loc_closed
+//@   assumes flag_starts_at_zero: ghost_loc_closed == 0
+//@   after_call topics.(*Subscription).Close#0 ghost loc_closed := 1
+//@   after_call topics.(*Subscription).Close#1 ghost loc_closed := 1
+//@   ensures subscription_always_closed: ghost_loc_closed == 1
